@@ -346,6 +346,12 @@ def lsOut (k : K R) (func : Pt R → R) (tol : R) (maxiter bmax fuel : Nat) (bad
   | .ok o => { fret := o.fval, x := vadd p (vscale o.xmin xi), xi := vscale o.xmin xi, ncalls := o.log.length }
   | .error _ => bad p xi
 
+/-- the literals of the Python source at `Float` (`grow_limit` is an argument of `bracket`, default 110.0); shared by the
+drivers so that every Float instantiation of the search uses the same constants -/
+def floatK (grow : Float := 110.0) : K Float :=
+  { abs := Float.abs, zero := 0.0, one := 1.0, two := 2.0, half := 0.5, gold := 1.618034, verysmall := 1e-21,
+    growLimit := grow, mintol := 1.0e-11, cg := 0.3819660 }
+
 /-- split a list at the first element satisfying `q` -/
 def splitFirst {α : Type} (q : α → Bool) : List α → Option (List α × α × List α)
   | [] => none
